@@ -454,8 +454,11 @@ func (s *Stream) skipValue(depth int64) error {
 				return err
 			}
 			return nil
+		default:
+			// like the buffer-mode skipValue: a value cannot begin with this byte
+			s.cursor = cursor
+			return errors.ErrInvalidBeginningOfValue(char(p, cursor), s.totalOffset())
 		}
-		cursor++
 	}
 }
 
